@@ -275,6 +275,9 @@ def c16(pid, tier, seed):
     fams = [
         fam("tabs_single", conf="single", W=40, H=6, D=4 if q else 5, BarOps=("set_tab_width", "set_style", "set_message", "set_prefix", "finish_with_message", "tick"),
             MsgShapes=("tab", "tt", "a", "utab"), Tpls=("TM", "KM", "PM"), TabWs=(8, 0, 4), Fins=("AndLeave",)),
+        # a tab between literal pieces that the parser produces separately (a brace that stands for itself)
+        fam("tabs_brace_literals", conf="single", W=40, H=6, D=3 if q else 4, BarOps=("set_tab_width", "set_style", "restyle", "set_message", "tick"),
+            MsgShapes=("tab", "a"), Tpls=("TB", "M"), TabWs=(8, 2), Fins=("AndLeave",)),
         fam("tabs_restyle", conf="single", W=40, H=6, D=4 if q else 5, BarOps=("set_tab_width", "restyle", "set_style", "set_message", "tick"),
             MsgShapes=("tab",), Tpls=("TM", "KC", "M"), TabWs=(8, 2), Fins=("AndLeave",)),
         # the texts given to the builder before / after the tab width (with_message, with_prefix, with_tab_width, with_style in every order)
